@@ -115,8 +115,35 @@ def run_dispatch(case):
                 raise RuntimeError('callback %d raises on packet %d' % (cbid, k))
         return f
 
+    import functools
+
+    class _Callable:
+        def __init__(self, f):
+            self.f = f
+
+        def __call__(self, pk):
+            return self.f(pk)
+
+    class _Holder:
+        def __init__(self, f):
+            self.f = f
+
+        def method(self, pk):
+            return self.f(pk)
+    kinds = case.get('kinds', ['function'] * 5)
+    keep = []
     for i in range(5):
-        funcs[i] = make(i)
+        f = make(i)
+        k = kinds[i % len(kinds)]
+        if k == 'partial':
+            f = functools.partial(lambda inner, pk: inner(pk), f)
+        elif k == 'instance':
+            f = _Callable(f)
+        elif k == 'method':
+            h = _Holder(f)
+            keep.append(h)
+            f = h.method
+        funcs[i] = f
     for reg in case['regs']:
         add(_norm(reg))
 
@@ -241,7 +268,8 @@ def _case(draw):
         if action == 'add':
             b['reg'] = draw(_reg())
         beh.append(b)
-    return {'regs': regs, 'packets': packets, 'behaviours': beh}
+    return {'regs': regs, 'packets': packets, 'behaviours': beh,
+            'kinds': draw(st.lists(st.sampled_from(['function', 'function', 'method', 'partial', 'instance']), min_size=5, max_size=5))}
 
 
 @st.composite
